@@ -52,7 +52,17 @@ def boundary_pieces(rng, n):
 def variant(rng, aud, n, grammar_lines, cfg, idx):
     s = ["mark var%d" % idx, "init " + decmatrix.hx(json.dumps(cfg))] + grammar_lines + ["cmn " + decmatrix.hx(CMN), "start"]
     kind = rng.choice(["tiny", "boundary", "boundary", "buffered", "queries", "rand", "first-small", "buffered-queries",
-                       "after-batch", "cut128"])
+                       "after-batch", "cut128", "after-stream"])
+    if kind == "after-stream":
+        # the same decoder first decodes another utterance in pieces (the read position of its cepstrum ring ends up
+        # somewhere in the middle); then calls long enough to run past the end of the ring
+        a2 = rng.choice(["head", "mid", "gf"])
+        n2, off2 = decmatrix.AUDIO_LEN[a2], 0
+        while off2 < n2:
+            k2 = min(n2 - off2, rng.choice([2048, 1600, 5000]))
+            s.append("feed %s %d %d i16 0 0" % (a2, off2, k2))
+            off2 += k2
+        s += ["end", "cmn " + decmatrix.hx(CMN), "start"]
     if kind == "after-batch":
         # the same decoder first decodes a long utterance as ONE full-utterance block (which enlarges its cepstrum
         # buffer for good); then the streaming variant: a short first piece and one very long piece
@@ -69,6 +79,9 @@ def variant(rng, aud, n, grammar_lines, cfg, idx):
     elif kind == "after-batch":
         first = rng.choice([1000, 2048, 160, 500, 4000])
         pieces = [min(first, n), max(0, n - first)]
+    elif kind == "after-stream":
+        first = rng.choice([n, 20000, 30000, 25000])
+        pieces = [min(first, n)] + ([n - first] if first < n else [])
     elif kind == "cut128":
         # one cut placed exactly where 128 (or 64, 256) feature frames exist
         c = rng.choice([samples_for(128 + 3) + rng.randint(0, SHIFT - 1), samples_for(64 + 3) + rng.randint(0, SHIFT - 1),
@@ -124,6 +137,8 @@ def make_execution(rng, ctx, idx, nvar):
     cfg.update(decmatrix.BEAMS[rng.choice(["default", "default", "narrow", "wide"])])
     if rng.random() < 0.2:
         cfg["compallsen"] = True
+    if rng.random() < 0.15:
+        cfg["input_endian"] = "big"       # the driver then hands the samples over byte-swapped (both entry points)
     gl, gkind = decmatrix.pick_grammar(rng, ctx, idx, valid_only=True)
     aud = rng.choice(["gf", "gf", "gf", "cut", "mid", "head", "tail", "rev", "clip", "t4", "t5", "t3", "t2", "t1", "sil", "noise",
                       "zhead", "hzh", "hzh"])
